@@ -20,7 +20,7 @@ strengthened = [json.load(open(os.path.join(d, "meta.json")))["caught_by"] for d
                 if "missed" in json.load(open(os.path.join(d, "meta.json")))["caught_by"].lower()]
 text = f"""## 14. Seeded changes: which checks catch which
 
-{len(rows)} changes were produced, in six rounds, by fresh sub-agents that were given only the text of
+{len(rows)} changes were produced, in eight rounds, by fresh sub-agents that were given only the text of
 one property and a scratch worktree of `/repo` (nothing from `/verif`); changes that merely repeated an
 earlier one were not stored.  Each compiles, passes the 49 + 1 existing
 tests, and breaks the property on a demonstration the agent delivered; each was confirmed by me
